@@ -2,8 +2,40 @@
 import ast
 from common import *
 import regex_tr
+import failclosed
+
+# Only single values of these functions are read (radix, factor, the re.sub arguments, the separator, the class tables); the rest of
+# their bodies is TRANSCRIBED by Model/C17.v.  failclosed pins that rest: one undecorated definition each, bound to its name at run
+# time, the statement skeleton the model was written from, every constant that is not read here (ANY = read and emitted below).
+_A = failclosed.ANY
+_FC = {'src': 'oslo_utils/versionutils.py', 'mod': 'oslo_utils.versionutils',
+       'imports': {'re': 're', 'operator': 'operator', 'functools': 'functools', 'packaging': 'packaging'}}
+FAILCLOSED = {
+    'generate': [dict(_FC, classes={'VersionPredicate': {'bases': [], 'methods': ['__init__', '_parse_predicate', 'satisfied_by']}},
+        functions={'convert_version_to_int': {'defaults': {}}, 'convert_version_to_str': {'defaults': {}},
+                   'convert_version_to_tuple': {'defaults': {}}, 'is_compatible': {'defaults': {'same_major': 'True'}},
+                   'VersionPredicate.__init__': {'defaults': {}}, 'VersionPredicate._parse_predicate': {'defaults': {}},
+                   'VersionPredicate.satisfied_by': {'defaults': {}}},
+        shapes={'convert_version_to_int': ('f25bab6a8e3fe1a8', [_A, _A]),
+                'convert_version_to_tuple': ('41667cea2dda967e', [_A, _A, _A]),
+                'is_compatible': ('535094073a24b473', [True, False]),
+                'VersionPredicate.__init__': ('c16e27520daa3494', [',']),
+                'VersionPredicate._parse_predicate': ('2b3d9a6b4d4649ae', [_A]),
+                'VersionPredicate.satisfied_by': ('b6a42fa6f990b983', [False, True])})],
+    'generate_code': [dict(_FC, functions={'convert_version_to_str': {'defaults': {}}})],
+    # statement-level translation (T17): every statement of these bodies is translated, so no shapes; what is NOT in the translated
+    # text is pinned: single undecorated runtime-bound definitions, defaults, the class (no bases, these methods only), the two class
+    # attributes read through the imported module, and what the names re / functools / packaging / operator / _ denote
+    'generate_code17': [dict(_FC, imports=dict(_FC['imports'], _='oslo_utils._i18n:_'),
+        classes={'VersionPredicate': {'bases': [], 'methods': ['__init__', '_parse_predicate', 'satisfied_by']}},
+        functions={'convert_version_to_int': {'defaults': {}}, 'convert_version_to_tuple': {'defaults': {}},
+                   'is_compatible': {'defaults': {'same_major': 'True'}},
+                   'VersionPredicate.__init__': {'defaults': {}}, 'VersionPredicate._parse_predicate': {'defaults': {}},
+                   'VersionPredicate.satisfied_by': {'defaults': {}}},
+        constants=['VersionPredicate._PREDICATE_MATCH', 'VersionPredicate._COMP_MAP'])]}
 
 def generate():
+    failclosed.check_all(FAILCLOSED['generate'])
     m = repo_import('oslo_utils.versionutils')
     tree = repo_ast('oslo_utils/versionutils.py')
     # convert_version_to_int: the radix is the integer literal of the reduce lambda
@@ -64,6 +96,7 @@ def generate_code():
     """statement-level translation of convert_version_to_str"""
     import py2gal
     from py2gal import Fn
+    failclosed.check_all(FAILCLOSED['generate_code'])
     tree = repo_ast('oslo_utils/versionutils.py')
     try:
         body = py2gal.translate_function(
@@ -76,6 +109,423 @@ def generate_code():
     return (HEADER % ('oslo_utils/versionutils.py', 'tools/gen/gen_versionutils.py (py2gal)')
             + 'Require Import OV.Base.Bytes OV.Base.Py OV.Base.PyInt OV.Base.Str.\nOpen Scope Z_scope.\n' + body)
 
+
+# ---------------------------------------------------------------------------------------------------
+# Statement-level translation of convert_version_to_tuple / convert_version_to_int / is_compatible /
+# VersionPredicate._parse_predicate / __init__ (Gen/C17_Code.v).  py2gal.Translator is extended here
+# (py2gal.py itself is not edited) with the constructs these functions use; every rule is local and
+# fails closed (Unsupported -> GenError -> committed baseline + translator_fallback in the evidence):
+#   re.sub(<literal>, <literal>, s)           -> re_sub of the regex/template translated at that call site
+#   s.split(<1 char>)                          -> split_char
+#   tuple(f(x) for x in l) / [f(x) for x in l] -> map_res (left to right, first failure escapes)
+#   functools.reduce(lambda x, y: E, t)        -> reduce_res (TypeError on the empty tuple)
+#   isinstance(x, str|tuple)                   -> decided by the declared type of the entry point (dead branch pruned)
+#   try: ... except Exception as ex: msg = <literal with one %s> % v; raise ValueError(msg) from ex
+#                                              -> every raising point of the body continues in the handler, translated with
+#                                                 the types current at that point (formatting a tuple of length != 1: TypeError)
+#   packaging.version.Version(t), a.major, a >= b -> the contract functions vparse / major / vle
+#   <compiled regex attribute>.match(s), `if not m`, a, b = m.groups() -> re_match / option test / group texts
+import py2gal
+from py2gal import Unsupported, Fn
+
+py2gal.COQ_TY.update({'intlist': 'list Z', 'ver': 'V', 'match': 'option match_obj', 'matchobj': 'match_obj',
+                      'optstr': 'option bytes', 'predpair': '(option bytes * V)', 'predlist': 'list (option bytes * V)'})
+
+class T17(py2gal.Translator):
+    def __init__(self, params, regexes, module=None, **kw):
+        super().__init__(params, **kw)
+        self.regexes = regexes          # shared list of (name, coq regex, coq template or None)
+        self.module = module            # imported oslo_utils.versionutils (for compiled class attributes)
+        self.handlers = []              # enclosing `except Exception` handlers (innermost last)
+        self.after = []                 # statements following the enclosing try statements
+        self.subject = {}               # match-object local -> coq text of the subject string
+        self.opaque = set()             # locals only usable as exception arguments
+        self.tables = {}                # source text of an operator table -> coq name of its generated association list
+
+    def ret(self, valtext, valty):
+        if getattr(self, 'read_fields', False):       # a method that only reads its fields returns just the value
+            if self.ret_type is None: self.ret_type = valty
+            if valty != self.ret_type: raise Unsupported('return type %s vs %s' % (valty, self.ret_type))
+            return 'RET(%s)' % valtext
+        return super().ret(valtext, valty)
+
+    # ---------------------------------------------------------------- regex literals
+    def regex_const(self, pattern, flags=0, need_nonempty=False):
+        coq, w = regex_tr.regex_to_coq(pattern, flags)
+        if need_nonempty and w <= 0: raise Unsupported('pattern used with sub may match the empty string')
+        for name, c, _ in self.regexes:
+            if c == coq: return name
+        name = 'gen_re_%d' % (len(self.regexes) + 1)
+        self.regexes.append((name, coq, None))
+        return name
+
+    # ---------------------------------------------------------------- expressions
+    def static_isinstance(self, e):
+        """isinstance(<local>, str|tuple) decided by the local's declared type; None when e is not such a test"""
+        if isinstance(e, ast.Call) and self.src(e.func) == 'isinstance' and len(e.args) == 2 and not e.keywords \
+                and isinstance(e.args[0], ast.Name) and isinstance(e.args[1], ast.Name):
+            ty = self.types.get(e.args[0].id)
+            cls = e.args[1].id
+            table = {'bytes': 'str', 'intlist': 'tuple'}
+            if ty not in table or cls not in ('str', 'tuple'): raise Unsupported('isinstance(%s : %s, %s)' % (e.args[0].id, ty, cls))
+            return table[ty] == cls
+        return None
+
+    def expr(self, e):
+        t = self.src(e)
+        if t in self.consts: return self.consts[t]
+        if isinstance(e, ast.Name) and e.id in self.opaque: raise Unsupported('use of %s outside a raise' % e.id)
+        if isinstance(e, ast.Call) and self.src(e.func) == 're.sub':
+            if e.keywords or len(e.args) != 3 or not all(isinstance(a, ast.Constant) and isinstance(a.value, str) for a in e.args[:2]):
+                raise Unsupported('re.sub form: ' + t)
+            subj, ts = self.expr(e.args[2])
+            if ts != 'bytes': raise Unsupported('re.sub subject of type ' + ts)
+            name = self.regex_const(e.args[0].value, 0, need_nonempty=True)
+            tmpl = regex_tr.template_to_coq(e.args[1].value)
+            return '(re_sub %s %s %s)' % (name, tmpl, subj), 'bytes'
+        if isinstance(e, ast.Call) and isinstance(e.func, ast.Attribute) and e.func.attr == 'split':
+            recv, tr = self.expr(e.func.value)
+            if tr != 'bytes' or e.keywords or len(e.args) != 1: raise Unsupported('split form: ' + t)
+            sep = e.args[0]
+            if not (isinstance(sep, ast.Constant) and isinstance(sep.value, str) and len(sep.value) == 1):
+                raise Unsupported('split separator is not a one-character literal')
+            return '(split_char %d%%N %s)' % (ord(sep.value), recv), 'strlist'
+        if isinstance(e, ast.Call) and isinstance(e.func, ast.Attribute) and e.func.attr == 'match' and t.split('.match(')[0] in self.consts_re():
+            pat = self.consts_re()[t.split('.match(')[0]]
+            if e.keywords or len(e.args) != 1: raise Unsupported('match form')
+            subj, ts = self.expr(e.args[0])
+            if ts != 'bytes': raise Unsupported('match subject of type ' + ts)
+            name = self.regex_const(pat)
+            return '(re_match %s %s)' % (name, subj), 'match:' + subj + ':%d' % pat.groups
+        if isinstance(e, ast.Attribute) and e.attr == 'major':
+            a, ta = self.expr(e.value)
+            if ta != 'ver': raise Unsupported('.major of ' + ta)
+            return '(major %s)' % a, 'int'
+        if isinstance(e, ast.Compare) and len(e.ops) == 1:
+            try:
+                a, ta = self.expr(e.left); b, tb = self.expr(e.comparators[0])
+            except Unsupported:
+                ta = tb = None
+            if ta == tb == 'ver':
+                op = e.ops[0]
+                if isinstance(op, ast.GtE): return '(vle %s %s)' % (b, a), 'bool'
+                if isinstance(op, ast.LtE): return '(vle %s %s)' % (a, b), 'bool'
+                raise Unsupported('comparison of versions: ' + t)
+        return super().expr(e)
+
+    def consts_re(self):
+        """source text -> compiled pattern, for class attributes that are compiled regexes"""
+        out = {}
+        if self.module is not None:
+            for cname, cls in vars(self.module).items():
+                if isinstance(cls, type) and getattr(cls, '__module__', None) == self.module.__name__:
+                    for an, av in vars(cls).items():
+                        if hasattr(av, 'pattern') and hasattr(av, 'match'):
+                            out['%s.%s' % (self.self_name, an)] = av
+        return out
+
+    def raising(self, e):
+        """(coq text : res T, T) for the raising constructs, else None"""
+        if not isinstance(e, ast.Call): return None
+        fn = self.src(e.func)
+        if fn in self.funcs and self.funcs[fn].raises:
+            f = self.funcs[fn]
+            return self.call(f, e), f.ret
+        if fn == 'packaging.version.Version' and len(e.args) == 1 and not e.keywords:
+            a, ta = self.expr(e.args[0])
+            if ta == 'bytes': return '(vparse_res vparse %s)' % a, 'ver'
+            if ta == 'optstr': return '(vparse_opt vparse %s)' % a, 'ver'
+            raise Unsupported('Version(%s)' % ta)
+        if fn == 'functools.reduce' and len(e.args) == 2 and not e.keywords and isinstance(e.args[0], ast.Lambda):
+            lam = e.args[0]
+            if lam.args.vararg or lam.args.kwarg or lam.args.kwonlyargs or lam.args.defaults or len(lam.args.args) != 2:
+                raise Unsupported('reduce lambda signature')
+            x, y = [a.arg for a in lam.args.args]
+            seq, ts = self.expr(e.args[1])
+            if ts != 'intlist': raise Unsupported('reduce over ' + ts)
+            sub = T17([(x, 'int'), (y, 'int')], self.regexes, self.module)
+            body, tb = sub.expr(lam.body)
+            if tb != 'int': raise Unsupported('reduce lambda returns ' + tb)
+            return '(reduce_res (fun %s %s => %s) %s)' % (x, y, body, seq), 'int'
+        comp = None
+        if fn == 'tuple' and len(e.args) == 1 and isinstance(e.args[0], ast.GeneratorExp): comp = e.args[0]
+        return self.comprehension(comp) if comp is not None else None
+
+    def comprehension(self, comp):
+        if len(comp.generators) != 1: raise Unsupported('nested comprehension')
+        g = comp.generators[0]
+        if g.ifs or g.is_async or not isinstance(g.target, ast.Name): raise Unsupported('comprehension form')
+        seq, ts = self.expr(g.iter)
+        if ts != 'strlist': raise Unsupported('comprehension over ' + ts)
+        var = g.target.id
+        if var in self.types: raise Unsupported('comprehension variable shadows a local')
+        elt = comp.elt
+        if isinstance(elt, ast.Call) and self.src(elt.func) == 'int' and len(elt.args) == 1 and not elt.keywords \
+                and isinstance(elt.args[0], ast.Name) and elt.args[0].id == var:
+            return '(map_res (fun %s => py_int_res %s) %s)' % (var, var, seq), 'intlist'
+        if isinstance(elt, ast.Call) and self.src(elt.func) in self.funcs and self.funcs[self.src(elt.func)].raises \
+                and len(elt.args) == 1 and isinstance(elt.args[0], ast.Name) and elt.args[0].id == var and not elt.keywords:
+            f = self.funcs[self.src(elt.func)]
+            if f.args != ['bytes']: raise Unsupported('comprehension callee signature')
+            return '(map_res (fun %s => %s %s) %s)' % (var, f.coq, var, seq), {'predpair': 'predlist', 'int': 'intlist'}.get(f.ret) or self._no('list of ' + f.ret)
+        raise Unsupported('comprehension element ' + self.src(elt))
+
+    def _no(self, what):
+        raise Unsupported(what)
+
+    # ---------------------------------------------------------------- exceptions
+    def on_exn(self, evar):
+        """what happens when an exception (coq value evar) is raised at the current point"""
+        if not self.handlers: return 'RAISE(%s)' % evar
+        h = self.handlers[-1]
+        saved_h, saved_a, saved_t, saved_o = self.handlers, self.after, dict(self.types), set(self.opaque)
+        self.handlers, self.after = self.handlers[:-1], self.after[:-1]      # the handler runs outside its own try
+        try:
+            return self.handler_block(list(h.body))
+        finally:
+            self.handlers, self.after, self.types, self.opaque = saved_h, saved_a, saved_t, saved_o
+
+    def handler_block(self, stmts):
+        # msg = <literal with exactly one %s, possibly through _()> % <local> ; raise <Exn>(msg) from ex
+        if len(stmts) == 2 and isinstance(stmts[0], ast.Assign) and len(stmts[0].targets) == 1 and isinstance(stmts[0].targets[0], ast.Name) \
+                and isinstance(stmts[0].value, ast.BinOp) and isinstance(stmts[0].value.op, ast.Mod) and isinstance(stmts[1], ast.Raise):
+            fmt, arg = stmts[0].value.left, stmts[0].value.right
+            if isinstance(fmt, ast.Call) and self.src(fmt.func) == '_' and len(fmt.args) == 1 and not fmt.keywords: fmt = fmt.args[0]
+            if not (isinstance(fmt, ast.Constant) and isinstance(fmt.value, str)): raise Unsupported('message format')
+            import re as _re
+            if len(_re.findall(r'%', fmt.value)) != 1 or '%s' not in fmt.value: raise Unsupported('message format specifiers')
+            if not isinstance(arg, ast.Name): raise Unsupported('message argument')
+            ta = self.types.get(arg.id)
+            self.opaque.add(stmts[0].targets[0].id)
+            rz = stmts[1]
+            if not (isinstance(rz.exc, ast.Call) and isinstance(rz.exc.func, ast.Name) and rz.exc.func.id in self.exn_names
+                    and len(rz.exc.args) == 1 and isinstance(rz.exc.args[0], ast.Name) and rz.exc.args[0].id in self.opaque):
+                raise Unsupported('handler raise form')
+            self.raises = True
+            final = self.on_exn(rz.exc.func.id)
+            if ta == 'bytes': return final                       # "%s" % str never raises
+            if ta == 'intlist':                                   # "%s" % tuple: TypeError unless exactly one element
+                return 'if (llenZ %s =? 1) then (%s) else (%s)' % (arg.id, final, self.on_exn('TypeError'))
+            raise Unsupported('message argument of type %s' % ta)
+        raise Unsupported('handler shape')
+
+    # ---------------------------------------------------------------- statements
+    def bind_target(self, tgt, ty):
+        if isinstance(tgt, ast.Name):
+            self.types[tgt.id] = ty            # Python rebinding: the new binding shadows the old one
+            self.consts.pop(tgt.id, None)
+            return tgt.id
+        return super().bind_target(tgt, ty)
+
+    def assign(self, tgt, value, rest):
+        rc = self.raising(value)
+        if rc is not None:
+            call, ty = rc
+            self.raises = True
+            handler = self.on_exn('e__')                 # translated BEFORE the target is rebound
+            name = self.bind_target(tgt, ty)
+            return 'match %s with Exn e__ => %s | Ok %s =>\n%s end' % (call, handler, name, self.block(rest))
+        v, ty = self.expr(value)
+        if ty.startswith('match:'):
+            _, subj, ng = ty.split(':')
+            name = self.bind_target(tgt, 'match')
+            self.subject[name] = (subj, int(ng))
+            return 'let %s := %s in\n%s' % (name, v, self.block(rest))
+        name = self.bind_target(tgt, ty)
+        return 'let %s := %s in\n%s' % (name, v, self.block(rest))
+
+    def block(self, stmts):
+        if not stmts:
+            if self.after:
+                rest = self.after[-1]
+                saved_h, saved_a = self.handlers, self.after
+                self.handlers, self.after = self.handlers[:-1], self.after[:-1]
+                try: return self.block(rest)
+                finally: self.handlers, self.after = saved_h, saved_a
+            return super().block(stmts)
+        s, rest = stmts[0], stmts[1:]
+        if isinstance(s, ast.If):
+            st = self.static_isinstance(s.test)
+            if st is not None:
+                return '(* %s is %s for this entry point *)\n%s' % (self.src(s.test), 'True' if st else 'False',
+                                                                      self.block((s.body if st else s.orelse) + rest))
+            # `if not m:` / `if m:` on a match object
+            neg = isinstance(s.test, ast.UnaryOp) and isinstance(s.test.op, ast.Not)
+            inner = s.test.operand if neg else s.test
+            if isinstance(inner, ast.Name) and self.types.get(inner.id) == 'match':
+                some_body, none_body = (s.orelse, s.body) if neg else (s.body, s.orelse)
+                saved = dict(self.types)
+                b_none = self.block(none_body + rest)
+                self.types = dict(saved); self.types[inner.id] = 'matchobj'
+                b_some = self.block(some_body + rest)
+                self.types = saved
+                return 'match %s with None => (\n%s) | Some %s => (\n%s) end' % (inner.id, b_none, inner.id, b_some)
+        if isinstance(s, ast.Raise) and self.handlers:
+            raise Unsupported('raise inside try')
+        if isinstance(s, ast.Try):
+            if s.orelse or s.finalbody or len(s.handlers) != 1: raise Unsupported('try shape')
+            h = s.handlers[0]
+            if not (isinstance(h.type, ast.Name) and h.type.id == 'Exception' and h.name): raise Unsupported('except clause')
+            for n in ast.walk(ast.Module(body=h.body, type_ignores=[])):
+                if isinstance(n, ast.Name) and n.id == h.name and not isinstance(getattr(n, 'ctx', None), ast.Load): raise Unsupported('handler rebinds the exception')
+            self.handlers.append(h); self.after.append(rest)
+            try: return self.block(list(s.body))
+            finally: self.handlers.pop(); self.after.pop()
+        if isinstance(s, ast.Assign) and len(s.targets) == 1 and isinstance(s.targets[0], ast.Tuple) \
+                and isinstance(s.value, ast.Call) and isinstance(s.value.func, ast.Attribute) and s.value.func.attr == 'groups' \
+                and isinstance(s.value.func.value, ast.Name) and self.types.get(s.value.func.value.id) == 'matchobj' and not s.value.args:
+            m = s.value.func.value.id
+            subj, ng = self.subject[m]
+            names = s.targets[0].elts
+            if len(names) != ng or not all(isinstance(n, ast.Name) for n in names): raise Unsupported('unpacking of groups()')
+            out = ''
+            for i, n in enumerate(names):
+                nm = self.bind_target(n, 'optstr')
+                out += 'let %s := (group_of %s %s %d%%nat) in\n' % (nm, subj, m, i + 1)
+            return out + self.block(rest)
+        if isinstance(s, ast.Assign) and len(s.targets) == 1 and isinstance(s.value, ast.ListComp):
+            call, ty = self.comprehension(s.value)
+            self.raises = True
+            handler = self.on_exn('e__')
+            name = self.bind_target(s.targets[0], ty)
+            return 'match %s with Exn e__ => %s | Ok %s =>\n%s end' % (call, handler, name, self.block(rest))
+        if isinstance(s, ast.Return) and s.value is not None:
+            rc = self.raising(s.value)
+            if rc is not None:
+                call, ty = rc
+                self.raises = True
+                return 'match %s with Exn e__ => %s | Ok ret__ =>\n%s end' % (call, self.on_exn('e__'), self.ret('ret__', ty))
+            if isinstance(s.value, ast.Tuple) and len(s.value.elts) == 2:
+                a, ta = self.expr(s.value.elts[0])
+                rc = self.raising(s.value.elts[1])
+                if rc is None or ta != 'optstr' or rc[1] != 'ver': raise Unsupported('returned pair')
+                self.raises = True
+                return 'match %s with Exn e__ => %s | Ok ret__ =>\n%s end' % (rc[0], self.on_exn('e__'), self.ret('(%s, ret__)' % a, 'predpair'))
+        if isinstance(s, ast.For):
+            return self.for_(s, rest)
+        return super().block(stmts)
+
+    def table_test(self, e):
+        """[not] <operator table>[<optstr local>](<ver local>, <ver local>) -> (coq test on op__, key text, negated)"""
+        neg = isinstance(e, ast.UnaryOp) and isinstance(e.op, ast.Not)
+        c = e.operand if neg else e
+        if not (isinstance(c, ast.Call) and isinstance(c.func, ast.Subscript) and self.src(c.func.value) in self.tables
+                and isinstance(c.func.slice, ast.Name) and len(c.args) == 2 and not c.keywords):
+            raise Unsupported('loop test ' + self.src(e))
+        k, tk = self.expr(c.func.slice)
+        a, ta = self.expr(c.args[0]); b, tb = self.expr(c.args[1])
+        if tk != 'optstr' or ta != 'ver' or tb != 'ver': raise Unsupported('loop test types')
+        test = '(cmp_apply vle veq op__ %s %s)' % (a, b)
+        return ('(negb %s)' % test if neg else test), k, self.tables[self.src(c.func.value)]
+
+    def for_(self, s, rest):
+        # for a, b in <list of pairs>: a sequence of `if <table test>: return <bool literal>`; then the rest
+        if s.orelse or not (isinstance(s.target, ast.Tuple) and len(s.target.elts) == 2 and all(isinstance(n, ast.Name) for n in s.target.elts)):
+            raise Unsupported('for shape')
+        seq, ts = self.expr(s.iter)
+        if ts != 'predlist': raise Unsupported('for over ' + ts)
+        a, b = [n.id for n in s.target.elts]
+        if a in self.types or b in self.types: raise Unsupported('loop variable shadows a local')
+        free = [(n, t) for n, t in self.types.items() if t in ('ver', 'int', 'bool', 'bytes')]
+        saved = dict(self.types)
+        self.types[a] = 'optstr'; self.types[b] = 'ver'
+        self.loop_id += 1
+        lname = '%s_loop%d' % (self.name, self.loop_id)
+        recur = '%s vle veq%s l__\'' % (lname, ''.join(' ' + n for n, _ in free))
+        body = recur
+        for st in reversed(s.body):
+            if not (isinstance(st, ast.If) and not st.orelse and len(st.body) == 1 and isinstance(st.body[0], ast.Return)
+                    and isinstance(st.body[0].value, ast.Constant) and isinstance(st.body[0].value.value, bool)):
+                raise Unsupported('loop body statement ' + self.src(st))
+            test, key, table = self.table_test(st.test)
+            r = 'true' if st.body[0].value.value else 'false'
+            body = 'match assoc_opt %s %s with None => Exn KeyError | Some op__ =>\n    if %s then Ok (Some %s) else %s end' % (key, table, test, r, body)
+        self.types = saved
+        if self.ret_type not in (None, 'bool'): raise Unsupported('loop return type')
+        self.ret_type = 'bool'
+        self.raises = True
+        params = ''.join(' (%s : %s)' % (n, py2gal.COQ_TY[t]) for n, t in free)
+        self.aux.append('Fixpoint %s {V : Type} (vle veq : V -> V -> bool)%s (l__ : list (option bytes * V)) {struct l__} : res (option bool) :=\n'
+                        '  match l__ with\n  | [] => Ok None\n  | (%s, %s) :: l__\' =>\n    %s\n  end.\n' % (lname, params, a, b, body))
+        return ('match %s vle veq%s %s with Exn e__ => %s | Ok (Some r__) => %s | Ok None =>\n%s end'
+                % (lname, ''.join(' ' + n for n, _ in free), seq, self.on_exn('e__'), self.ret('r__', 'bool'), self.block(rest)))
+
+def translate17(tr, fndef, name, params, binders='', self_param=False):
+    """emit one Definition (the tail of py2gal.translate_function, with leading contract binders)"""
+    for d in fndef.decorator_list:
+        raise Unsupported('decorator @%s on %s' % (ast.unparse(d), name))
+    argn = [a.arg for a in fndef.args.args]
+    if self_param:
+        if not argn or argn[0] != 'self': raise Unsupported('method without self')
+        argn = argn[1:]
+    if argn != [p for p, _ in params]: raise Unsupported('signature of %s changed: %s' % (name, argn))
+    if fndef.args.vararg or fndef.args.kwarg or fndef.args.kwonlyargs: raise Unsupported('varargs')
+    tr.name = name
+    body = tr.block(fndef.body)
+    if tr.ret_type is None: tr.ret_type = 'none'
+    rty = py2gal.COQ_TY[tr.ret_type]
+    if tr.raises:
+        body = body.replace('RET(', 'Ok (').replace('RAISE(', 'Exn (')
+        rty = 'res (%s)' % rty
+    else:
+        body = body.replace('RET(', '(')
+    args = ''.join(' (%s : %s)' % (p, py2gal.COQ_TY[t]) for p, t in params)
+    selfargs = ''.join(' (self_%s : %s)' % (f, py2gal.COQ_TY[t]) for f, t in (tr.fields or {}).items()) if getattr(tr, 'read_fields', False) else ''
+    return ''.join(tr.aux) + 'Definition %s%s%s%s : %s :=\n%s.\n' % (name, binders, selfargs, args, rty, body)
+
+VBIND = ' {V : Type} (vparse : bytes -> option V)'
+
+def generate_code17():
+    """Gen/C17_Code.v"""
+    failclosed.check_all(FAILCLOSED['generate_code17'])
+    m = repo_import('oslo_utils.versionutils')
+    tree = repo_ast('oslo_utils/versionutils.py')
+    regexes = []
+    defs = []
+    try:
+        t = T17([('version_str', 'bytes')], regexes, m)
+        defs.append(translate17(t, py2gal.get_fndef(tree, 'convert_version_to_tuple'), 'gen_convert_version_to_tuple', [('version_str', 'bytes')]))
+        tup = {'convert_version_to_tuple': Fn('gen_convert_version_to_tuple', ['bytes'], 'intlist', raises=True)}
+        t = T17([('version', 'bytes')], regexes, m, funcs=tup)
+        defs.append(translate17(t, py2gal.get_fndef(tree, 'convert_version_to_int'), 'gen_convert_version_to_int_str', [('version', 'bytes')]))
+        t = T17([('version', 'intlist')], regexes, m, funcs=tup)
+        defs.append(translate17(t, py2gal.get_fndef(tree, 'convert_version_to_int'), 'gen_convert_version_to_int_tuple', [('version', 'intlist')]))
+        ps = [('requested_version', 'bytes'), ('current_version', 'bytes'), ('same_major', 'bool')]
+        t = T17(ps, regexes, m)
+        defs.append(translate17(t, py2gal.get_fndef(tree, 'is_compatible'), 'gen_is_compatible', ps,
+                                binders=VBIND + ' (vle : V -> V -> bool) (major : V -> Z)'))
+        t = T17([('pred', 'bytes')], regexes, m)
+        defs.append(translate17(t, py2gal.get_fndef(tree, '_parse_predicate', 'VersionPredicate'), 'gen_parse_predicate', [('pred', 'bytes')],
+                                binders=VBIND, self_param=True))
+        t = T17([('predicate_str', 'bytes')], regexes, m, fields={'pred': 'predlist'},
+                funcs={'self._parse_predicate': Fn('(gen_parse_predicate vparse)', ['bytes'], 'predpair', raises=True)})
+        body = translate17(t, py2gal.get_fndef(tree, '__init__', 'VersionPredicate'), 'gen_predicate_init', [('predicate_str', 'bytes')],
+                           binders=VBIND, self_param=True)
+        # __init__ only sets self.pred and returns None: expose the new state
+        if t.assigned_fields != {'pred'} or t.ret_type != 'none': raise Unsupported('__init__ does more than setting self.pred')
+        if body.count('Ok (((self_pred), tt))') != 1 or ': res (unit)' not in body: raise Unsupported('__init__ return shape')
+        body = body.replace(': res (unit)', ': res (list (option bytes * V))').replace('Ok (((self_pred), tt))', 'Ok (self_pred)')
+        defs.append(body)
+        # satisfied_by reads self.pred and the operator table (Gen/Versionutils.comp_map is generated from the same class attribute)
+        t = T17([('version_str', 'bytes')], regexes, m, fields={'pred': 'predlist'})
+        t.tables = {'self._COMP_MAP': 'comp_map'}
+        t.read_fields = True
+        defs.append(translate17(t, py2gal.get_fndef(tree, 'satisfied_by', 'VersionPredicate'), 'gen_satisfied_by', [('version_str', 'bytes')],
+                                binders=VBIND + ' (vle veq : V -> V -> bool)', self_param=True))
+        if t.assigned_fields: raise Unsupported('satisfied_by assigns a field')
+    except (Unsupported, regex_tr.Unsupported) as e:
+        raise GenError('statement-level translation: ' + str(e))
+    out = [HEADER % ('oslo_utils/versionutils.py', 'tools/gen/gen_versionutils.py (py2gal + T17)')]
+    out.append('Require Import OV.Base.Bytes OV.Base.Py OV.Base.PyInt OV.Base.Str OV.Base.Regex OV.Base.C17_Py OV.Gen.Versionutils.\nOpen Scope N_scope.')
+    # operator.lt/le/eq/gt/ge/ne applied to two Version objects, in terms of the contract's <= and ==
+    out.append('Definition cmp_apply {V : Type} (vle veq : V -> V -> bool) (o : cmpop) (a b : V) : bool :=\n'
+               '  match o with OpLt => vle a b && negb (veq a b) | OpLe => vle a b | OpEq => veq a b\n'
+               '  | OpGt => vle b a && negb (veq a b) | OpGe => vle b a | OpNe => negb (veq a b) end.')
+    for name, coq, _ in regexes:
+        out.append('Definition %s : re := %s.' % (name, coq))
+    out.append('Open Scope Z_scope.')
+    return '\n'.join(out) + '\n' + ''.join(defs)
+
 if __name__ == '__main__':
     import sys
-    sys.stdout.write(generate()); sys.stdout.write(generate_code())
+    sys.stdout.write(generate()); sys.stdout.write(generate_code()); sys.stdout.write(generate_code17())
